@@ -137,7 +137,7 @@ m("C17", "keep-args-on-wrong-branch", "src/rules/remove_call_match.rs",
   "                *statement = if self.preserve_args_side_effects {", "                *statement = if !self.preserve_args_side_effects {", "C17.args|process_statement|preserve-branch")
 m("C17", "drop-effectful-argument", "src/utils/preserve_arguments_side_effects.rs",
   "                        if evaluator.has_side_effects(key) {\n                            expressions.push(key.clone());\n                        }\n                        if evaluator.has_side_effects(value) {",
-  "                        if !evaluator.has_side_effects(key) {\n                            expressions.push(key.clone());\n                        }\n                        if evaluator.has_side_effects(value) {", "C17.keep|push@")
+  "                        if !evaluator.has_side_effects(key) {\n                            expressions.push(key.clone());\n                        }\n                        if evaluator.has_side_effects(value) {", "C17.keep|kept|")
 m("C01", "while-dropped-without-effect-check", "src/rules/unused_while.rs",
   "                self.evaluator.has_side_effects(condition)\n                    || self\n                        .evaluator", "                self\n                        .evaluator", "C01.guard|unused_while|")
 m("C01", "branch-dropped-despite-effects", "src/rules/unused_if_branch.rs",
@@ -200,7 +200,7 @@ m("C04", "argument-string-shifted-twice", "src/nodes/arguments.rs",
 m("C12", "zero-width-reference-skipped", "src/nodes/token.rs",
   "    pub(crate) fn replace_referenced_tokens(&mut self, code: &str) {\n        if let Position::LineNumberReference {\n            start,\n            end,\n            line_number,\n        } = self.position\n        {",
   "    pub(crate) fn replace_referenced_tokens(&mut self, code: &str) {\n        if let Position::LineNumberReference {\n            start,\n            end,\n            line_number,\n        } = self.position\n            && start < end\n        {",
-  "C12.resolve|unguarded|replace_referenced_tokens#0")
+  "C12.resolve|every-reference-resolved")
 m("C06", "literal-given-to-%s-bare", "src/rules/remove_interpolated_string.rs",
   "                        ReplacementStrategy::ToStringSpecifier => value,\n",
   "                        ReplacementStrategy::ToStringSpecifier => value,\n                        ReplacementStrategy::StringSpecifier if matches!(value, Expression::Nil(_)) => value,\n",
@@ -232,6 +232,12 @@ m("C14", "long-bracket-not-gated", "src/generator/utils.rs",
 m("C16", "vararg-receiver-duplicated-bare", "src/rules/remove_method_call.rs",
   "                | Expression::VariableArguments(_)\n                | Expression::TypeCast(_)",
   "                | Expression::TypeCast(_)",
-  "C16.receiver|first-argument-single-valued|VariableArguments",
+  "C16.receiver|process_function_call|VariableArguments|args=0",
   more=[("                | Expression::Identifier(_) => Some(parenthese", "                | Expression::VariableArguments(_)\n                | Expression::Identifier(_) => Some(parenthese"),
         (".insert(0, Expression::from(new_prefix));", ".insert(0, match new_prefix {\n                    Prefix::Parenthese(p) => p.inner_expression().clone(),\n                    other => Expression::from(other),\n                });")])
+m("C16", "recursive-local-function-converted", "src/rules/no_local_function.rs",
+  "                if !find_usage.has_found_usage() {",
+  "                if find_usage.has_found_usage() || !find_usage.has_found_usage() {",
+  "C16.local|process_statement|param-named-f=False,body-mentions-f=True")
+m("C14", "keyword-accepted-as-name", "src/process/utils/mod.rs",
+  "            | \"until\"\n", "", "C14.keyword|keyword|until")
